@@ -401,6 +401,13 @@ func reMatchDyn(pattern string, s string) bool { return regexp.MustCompile(patte
 
 // SpecIsIdLine: the line carries the id action of the rule ("id:<rule id>").
 func SpecIsIdLine(ruleId string, line []byte) bool {
+	if utils.SpecHasPrefix(string(line[utils.SpecSkipBlanks(string(line), 0):]), "#") {
+		return false // a comment that mentions the id
+	}
+	if reMatch(regex.RuleRxRegex, string(line)) {
+		// the operand of an @rx operator may contain the text "id:..." without being the id action
+		return reMatchDyn("id:"+ruleId, reGroup(regex.RuleRxRegex, string(line), 1)) || reMatchDyn("id:"+ruleId, reGroup(regex.RuleRxRegex, string(line), 3))
+	}
 	return reMatchDyn("id:"+ruleId, string(line))
 }
 
